@@ -56,7 +56,7 @@ pub fn make_lookup(tree: &TreeSpec, p: &PathRecipe, o: &LOpRecipe) -> Op {
 pub fn strategy(nlookups: usize) -> impl Strategy<Value = Case> {
     (
         tree_recipe(14),
-        prop_oneof![Just(Kcfg::Full), Just(Kcfg::NoOpenat2)],
+        prop_oneof![1 => Just(Kcfg::Full), 1 => Just(Kcfg::NoOpenat2), 4 => Just(Kcfg::NoMountApi), 4 => Just(Kcfg::NoOpenat2NoMountApi)],
         prop_oneof![3 => Just(false), 1 => Just(true)],
         vec((path_recipe(), lop_recipe(), prop_oneof![3 => Just(false), 1 => Just(true)]), 1..=nlookups),
     )
